@@ -71,6 +71,58 @@ def _reachable_mutables(st):
     return list(seen.values())
 
 
+def init_defaults(cls):
+    """{attribute: value} for every `self.X = <literal>` of the __init__ methods along cls.__mro__ (constants, empty displays, set() / list() /
+    dict() calls without arguments): what every instance starts with whatever the constructor is given"""
+    out = {}
+    for k in reversed(cls.__mro__):
+        fn = k.__dict__.get('__init__')
+        if not isinstance(fn, types.FunctionType):
+            continue
+        try:
+            src = inspect.getsource(fn)
+            import textwrap
+            tree = ast.parse(textwrap.dedent(src))
+        except (OSError, TypeError, SyntaxError):
+            continue
+        fdef = tree.body[0]
+        if not fdef.args.args:
+            continue
+        me = fdef.args.args[0].arg
+        for st in ast.walk(fdef):
+            if isinstance(st, ast.Assign) and len(st.targets) == 1:
+                t, v = st.targets[0], st.value
+            elif isinstance(st, ast.AnnAssign) and st.value is not None:
+                t, v = st.target, st.value
+            else:
+                continue
+            if not (isinstance(t, ast.Attribute) and isinstance(t.value, ast.Name) and t.value.id == me):
+                continue
+            if isinstance(v, ast.Constant):
+                out[t.attr] = ('const', v.value)
+            elif isinstance(v, (ast.List, ast.Tuple)) and not v.elts:
+                out[t.attr] = ('new', list if isinstance(v, ast.List) else tuple)
+            elif isinstance(v, ast.Dict) and not v.keys:
+                out[t.attr] = ('new', dict)
+            elif isinstance(v, ast.Call) and isinstance(v.func, ast.Name) and v.func.id in ('set', 'list', 'dict') and not v.args and not v.keywords:
+                out[t.attr] = ('new', {'set': set, 'list': list, 'dict': dict}[v.func.id])
+    return out
+
+
+def bare_instance(cls, **attrs):
+    """an object of the real class without running its constructor (the harness supplies the state the contract talks about), but WITH the
+    constant defaults the real __init__ gives every instance - so that an attribute a later version adds there exists"""
+    o = cls.__new__(cls)
+    for k, (kind, v) in init_defaults(cls).items():
+        try:
+            setattr(o, k, v if kind == 'const' else v())
+        except (AttributeError, TypeError):
+            pass
+    for k, v in attrs.items():
+        setattr(o, k, v)
+    return o
+
+
 class LoopSpec(object):
     """supplied by the sidecar, keyed by function qualname + loop ordinal.
     invariant(L, st) -> z3 Bool / bool ; havoc(L, st) -> dict of new local values
